@@ -132,6 +132,9 @@ class Params(PyObj):
             fin = not isinstance(value, NaNType) and value is not None
             self.writes['stderr_finite'].append((i, PNAMES.index(pname), fin))
 
+    def fingerprint_(self):
+        return ('params', tuple((k, len(v)) for k, v in sorted(self.writes.items()))), []
+
     def getitem_(self, ctx, key):
         k = parse_key(key)
         if k == 'components':
